@@ -127,7 +127,6 @@ static void latesend_scenario(int idx);
 static void earlysend_scenario(int idx);
 static void stopsend_scenario(int idx);
 static void detachsend_scenario(int idx);
-static void senddetach_scenario(int idx);
 #include "c05_variants.h"
 
 /* ---- the pool virtual thread carries a message AND a user event at the same time, while the worker(s) are
@@ -562,31 +561,6 @@ detachsend_scenario(int idx) {
 	sc_wait_quiescent();
 	for (k = 0; k < 3; k ++) {
 		if (0 == lrc[k] && 0 == ls_runs[k]) sc_fail("message-lost", "message #%d sent after tp_thread_dettach() returned was accepted, never ran", k);
-		if (0 == lrc[k] && ls_runs[k] > 1) sc_fail("message-duplicated", "message #%d ran %d times", k, ls_runs[k]);
-		if (0 != lrc[k] && 0 != ls_runs[k]) sc_fail("failed-send-ran-callback", "message #%d: send returned %d, callback ran", k, lrc[k]);
-	}
-	for (k = 1; k < ls_n; k ++)
-		if (ls_order[k] < ls_order[k - 1]) sc_fail("order-violated", "message #%d ran after #%d", ls_order[k], ls_order[k - 1]);
-}
-
-/* ---- sends accepted by an idle running thread, then tp_thread_dettach() of that thread from outside before it woke up:
- * what was accepted runs once ---- */
-static void
-senddetach_scenario(int idx) {
-	const mvar_t *v = &variants[idx];
-	int k, rc, lrc[3];
-	tpt_p dst;
-
-	cur = v;
-	tpc_up(v->W, 0);
-	dst = tp_thread_get(tpc_tp, (size_t)(v->W - 1));
-	for (k = 0; k < 3; k ++)
-		lrc[k] = tpt_msg_send(dst, NULL, 0, ls_item_cb, (void *)(intptr_t)k);
-	rc = tp_thread_dettach(dst);
-	if (0 != rc) sc_fail("harness", "tp_thread_dettach rc=%d", rc);
-	sc_wait_quiescent();
-	for (k = 0; k < 3; k ++) {
-		if (0 == lrc[k] && 0 == ls_runs[k]) sc_fail("message-lost", "message #%d was accepted by an idle running thread before tp_thread_dettach(), never ran", k);
 		if (0 == lrc[k] && ls_runs[k] > 1) sc_fail("message-duplicated", "message #%d ran %d times", k, ls_runs[k]);
 		if (0 != lrc[k] && 0 != ls_runs[k]) sc_fail("failed-send-ran-callback", "message #%d: send returned %d, callback ran", k, lrc[k]);
 	}
